@@ -36,7 +36,7 @@ Hypotheses (the model's idealisations, as for the other writer ties): the open e
 the reader DELIVERS `chunks` (`Delivers`: its successive `read` results are the non-empty chunks, each at
 most the 8 KiB of the buffer, possibly with `Interrupted` failures in between - retried by `io::copy` -, then end
 of data); the bytes delivered fit the `u64` byte counter.  A reader that fails with another error kind, panics,
-or overruns the buffer is translated (`Rs.C.io_copy`) but has no model counterpart (review finding F2 / D21).
+or overruns the buffer is translated (`Rs.C.io_copy`) but has no model counterpart (review finding F2 of session 3: a raw copy from a short or failing source; NOT the later D21 = pre-allocation repair).
 
 TRUSTED VOCABULARY added (Basic/RsC.lean): `mut file: ZipFile` by value = its `ZipFileData` + the results of
 its raw reader's successive `read` calls; `file.get_raw_reader()` on a handle that has not been read from;
